@@ -77,6 +77,8 @@ func (c *nodeCfg) dialect() *dialect.Dialect {
 	case 4:
 		m := hd.Messages()
 		return &dialect.Dialect{Version: hd.DialectVersion, Messages: append(m[:1:1], m[2:]...)}
+	case 5: // invalid: two messages with the same id
+		return &dialect.Dialect{Version: hd.DialectVersion, Messages: append(hd.Messages(), &hd.MessageVerifTag{})}
 	}
 	return hd.New()
 }
@@ -132,6 +134,7 @@ type env struct {
 	writers []*writer
 	closed  bool
 	peerNoRead bool // odd-numbered peer links never read what the node writes
+	peerAPHeartbeats bool // peers also send ArduPilot heartbeats from fresh identities
 }
 
 // newEnv makes the world; endpoints are added with addEndpoint before startNode.
